@@ -410,3 +410,36 @@ func init() {
 	generators["C16"] = []func(*gen){genUpdateBodies(false)}
 	generators["C17"] = []func(*gen){genUpdateBodies(true), genUpdateBodies(false), genFromErr}
 }
+
+// genOversize feeds every decoder byte slices above 65535 bytes and random garbage of all sizes.
+func genOversize(g *gen) {
+	empty := term.L()
+	for i := 0; i < g.scale(12, 60); i++ {
+		n := 65530 + g.r.Intn(4500)
+		b := g.bytes(n)
+		if i%2 == 0 {
+			b[0], b[1] = 0xff, uint8(0xf0+g.r.Intn(16))
+		}
+		g.emit("upd", term.Hex(b), empty)
+		g.emit("pfx", term.B(i%2 == 0), term.B(i%4 < 2), term.Hex(b))
+		g.emit("attr."+attrNames[i%len(attrNames)].name, term.N(uint64(pick[uint8](g, 0x40, 0x80, 0xc0, 0x50))), term.Hex(b))
+		g.emit("mpreach", term.N(0x80), term.Hex(b), term.A("nil"))
+		g.emit("open.dec", term.Hex(b[:pick(g, 255, 256, 265, 266, 300, 4077, n)]))
+		g.emit("notif.dec", term.Hex(b[:pick(g, 4077, n)]))
+		g.emit("addpath.dec", term.Hex(b[:pick(g, 4, 256, 1024, n-n%4)]))
+		g.emit("mp6pfx", term.B(i%2 == 0), term.Hex(b))
+	}
+	for i := 0; i < g.scale(4000, 80000); i++ {
+		b := g.bytes(g.r.Intn(64))
+		fn := pick(g, "upd", "open.dec", "notif.dec", "addpath.dec", "mp6nh", "read")
+		if fn == "upd" {
+			g.emit(fn, term.Hex(b), empty)
+		} else {
+			g.emit(fn, term.Hex(b))
+		}
+	}
+}
+
+func init() {
+	generators["C05"] = []func(*gen){genOversize, genOpenDecode, genReader, genAttrDecoders, genPrefixes, genMPSplitters, genUpdateBodies(false)}
+}
